@@ -1691,6 +1691,8 @@ def builtin(it, name, args, kw, n):
             return r
     if name == 'isinstance':
         return do_isinstance(it, args[0], args[1], n)
+    if name == 'object' and not args and not kw:
+        return K(object())         # a fresh object with nothing but an identity (sentinels)
     if name == 'len':
         return do_len(it, args[0], n)
     if name == 'int.from_bytes' or name == 'int.from_bytes':
